@@ -288,6 +288,30 @@ Example C05_run_end_to_end :
   = Some (inl [[VStr [121%Z]; VInt 5]; [VStr [120%Z]; VInt 3]]).
 Proof. vm_compute. reflexivity. Qed.
 
+(* ... with the scalar library modelled for C18 in the loop (Eval.apply_func calls Model/Dates.v / StrFuncs.v):
+   SELECT quarter(d) AS q, count( * ) AS n, max(date_part('week', d)) AS w FROM #v
+   WHERE year(d) = 2020 AND int(b) > 0 GROUP BY 1 ORDER BY q DESC
+   over the dates 2020-01-01, 2021-01-01, 2020-07-03, 2020-07-04, NULL, 2020-01-02 and b = '12', '7', ' 3', 'x', '1', '+4' *)
+Definition lit_str (s : list Z) := EConstant (CScalar (VStr s)).
+Example C05_run_end_to_end_library :
+  let v := mk_table "v" [("d", "date"); ("b", "str")] ["d"; "b"] false in
+  let rows := [[VDate 737425%Z; VStr [49%Z; 50%Z]]; [VDate 737791%Z; VStr [55%Z]]; [VDate 737609%Z; VStr [32%Z; 51%Z]];
+               [VDate 737610%Z; VStr [120%Z]]; [VNull; VStr [49%Z]]; [VDate 737426%Z; VStr [43%Z; 52%Z]]] in
+  run_stmt [v] PNone [("v", rows)]
+    (SSelect (ESelect (Some [(EFunction "quarter" [EColumn "d"], Some "q", "quarter(d)");
+                             (EFunction "count" [EAsterisk], Some "n", "count(*)");
+                             (EFunction "max" [EFunction "date_part" [lit_str [119; 101; 101; 107]%Z; EColumn "d"]], Some "w", "max(...)")])
+                      (FKTable "v") None
+                      (Some (EAnd [EBinary "Equal" (EFunction "year" [EColumn "d"]) (lit 2020);
+                                   EBinary "Greater" (EFunction "int" [EColumn "b"]) (lit 0)]))
+                      (Some ([inl 1%Z], None)) [(inr (EColumn "q"), true)] None None false))
+  = Some (inl [[VStr [50; 48; 50; 48; 45; 81; 51]%Z; VInt 1; VInt 27]; [VStr [50; 48; 50; 48; 45; 81; 49]%Z; VInt 2; VInt 1]])
+  (* a library function the typed model leaves out (it can raise) is refused, not run *)
+  /\ run_stmt [v] PNone [("v", rows)]
+       (SSelect (ESelect (Some [(EFunction "yearmonth" [EColumn "d"], None, "yearmonth(d)")]) (FKTable "v") None None None [] None None false))
+     = None.
+Proof. vm_compute. split; reflexivity. Qed.
+
 (* ================================================================== tie by translation (harness/PYMINI.md, DESIGN 10.6)
    The PyMini terms of Gen/SrcLookup.v and Gen/SrcCompiler.v are regenerated on every run from the source of the imported
    beanquery.types / beanquery.compiler (harness/vf/src_compiler.py); the theorems below say that interpreting them
